@@ -38,7 +38,7 @@ impl Ingestion {
             // the lock is still held (returned) when the ingested tables are finished and registered
             critical(final(fx).log),
     {
-//@ FROM src/tree/ingest.rs :: impl < 'a > Ingestion < 'a > :: fn finish :: STMTS `let flush_lock =` .. `self . tree . flush (` :: OBL C14.4
+//@ FROM src/tree/ingest.rs :: impl < 'a > Ingestion < 'a > :: fn finish :: STMTS `let flush_lock =` .. `<let results =` :: OBL C14.4
         let flush_lock = self.tree.get_flush_lock(Tracked(fx));
 
         self.tree.rotate_memtable(Tracked(fx));
@@ -55,7 +55,7 @@ fn blob_finish_critical_prefix(index: &Tree, Tracked(fx): Tracked<&mut Fx>) -> (
     requires old(fx).log.len() == 0,
     ensures critical(final(fx).log),
 {
-//@ FROM src/blob_tree/ingest.rs :: impl < 'a > BlobIngestion < 'a > :: fn finish :: STMTS `let flush_lock =` .. `index . flush (` :: OBL C14.4
+//@ FROM src/blob_tree/ingest.rs :: impl < 'a > BlobIngestion < 'a > :: fn finish :: STMTS `let flush_lock =` .. `<let blob_files =` :: OBL C14.4
     let flush_lock = index.get_flush_lock(Tracked(fx));
 
     index.rotate_memtable(Tracked(fx));
